@@ -11,7 +11,7 @@ def fhex(x):
     return "PrimFloat." + t if t in ("nan", "infinity", "neg_infinity") else t
 
 PROP_FILE = "Properties/C13.v"
-GEN = []
+GEN = ["GenC13"]
 RUN_FILES = ["Model/C13_run.v"]
 
 # ----------------------------------------------------------------------------------------------- CRS pool
